@@ -69,7 +69,7 @@ func Run(tier string, seed uint64, modelPath, repo string, out *res.Result) erro
 		nSpell, nShort, nBlocks, nVars, kwPerProp = 420000, 60000, 50000, 40000, 0
 	}
 	out.Rule = "P1: declarations = (harvested test literals | property x 1-4 atoms drawn from the atoms the real validator accepts for it, " +
-		"atoms = every keyword literal of the validators + lengths in all units, %, numbers, colours, strings, urls, functions) x 2 spelling variants, plus one variant with a non-ASCII look-alike (U+212A, U+0130, U+0131, U+017F after upper-case ASCII letters) in the name, a keyword, a unit or a function name, which must be rejected, and one variant with a component replaced by a token no grammar knows (unknown unit / function / hash), which must be rejected (also scanned over every property x accepted atoms x every position); " +
+		"atoms = every keyword literal of the validators + lengths in all units, %, numbers, colours, strings, urls, functions) x 2 spelling variants, plus one variant with a non-ASCII look-alike (U+212A, U+0130, U+0131, U+017F after upper-case ASCII letters) in the name, a keyword, a unit or a function name, which must be rejected, and one variant with a component replaced by a token no grammar knows (unknown unit / function / hash), which must be rejected (also scanned over every property x accepted atoms x every position; a length replaced by a unitless fraction in (-1,1) must be rejected where plain numbers are); keywords in custom-ident positions (page: auto, counter-reset: none, grid lines: auto…) compared on COMPUTED values in upper/mixed case; " +
 		"P2: four-sides / border-radius / flex / generic shorthands with 1-5 component values vs explicit longhands and vs the model; background shorthands with 1-4 layers (image, position/size, repeat, attachment, one or two boxes per layer, colour on the last) vs the explicit longhand lists; " +
 		"P2c: `||` shorthands (columns, outline, column-rule, border-*, border, list-style, text-decoration, flex-flow) in every component order incl. auto/normal/none vs the longhands; `!important` with whitespace/comments around it through a sheet and a style attribute; P3: blocks of 2-6 declarations with 1-3 invalid ones interleaved; P4: var() graphs on a probe element (worker process), a third of them also through a style attribute. " +
 		"non-trivial = the base declaration is accepted and the variant differs textually (P1), the shorthand is accepted (P2), " +
@@ -92,6 +92,11 @@ func Run(tier string, seed uint64, modelPath, repo string, out *res.Result) erro
 		laxPerProp = 0
 	}
 	rn.laxScan(r.Sub(), laxPerProp)
+	kwPer := 25
+	if tier == "thorough" {
+		kwPer = 0
+	}
+	rn.keywordCase(r.Sub(), kwPer)
 	if err := rn.spelling(r.Sub(), nSpell); err != nil {
 		return err
 	}
